@@ -20,6 +20,8 @@ JSXFREE = {
     'ts-merged': 'interface Id {{ id: string }} interface La {{ label: string }} interface P extends Id {{ size: number }} interface P extends La {{ color: string }} interface P {{ extra?: boolean }} export function d(p: P): string {{ return p.id + p.label }}',
     'ts-decls': 'export interface Q<T> extends Array<T> {{ (x: T): void; new (x: T): Q<T>; readonly [k: string]: unknown; m?(): void }} type R = Q<number>["length"]; export type S = {{ [K in keyof R]?: R[K] }}; declare module "m" {{ export const v: number }} abstract class Ab {{ abstract f(): void; protected g?(): string }}',
     'ts-scoped': 'function outer() {{ interface L extends Base {{ a: string }} interface L {{ b: number }} type T = L | null; interface Base {{ z: boolean }} return null as unknown as T }} interface Base {{ top: number }}',
+    'ts-blocks-after-jsx': 'const App = () => <div class="app">hello</div>; declare global {{ namespace JSX {{ interface IntrinsicElements {{ "my-el": {{ label?: string }} }} }} }} namespace Registry {{ export const entries: string[] = []; export const el = <b/>; }} declare module "m" {{ export const v: number }} export default App;',
+    'ts-blocks-with-slot': 'namespace Before {{ export const x = 1 }} const v = <Foo>{{f1()}}</Foo>; namespace After {{ export const y = () => <Foo>{{f1()}}</Foo>; export namespace Inner {{ export const z = 2 }} }} function f1() {{ return 0 }}',
     'comments': '/* @jsx h */\n// @jsx other\nconst a = 1; /** @jsxFrag F */ const b = 2;',
     'define-like': 'function defineComponent(o) {{ return o }} const C = defineComponent({{ name: "x" }});',
     'vue-import-no-call': 'import {{ defineComponent, ref }} from "vue"; const r = ref(1);',
@@ -34,6 +36,9 @@ DEFINE = {
     'shadow-param': 'import {{ defineComponent }} from "vue"; export const Real = defineComponent((props: {{ msg: string }}) => () => null); export function registry(defineComponent: (s: (p: {{ id: number }}) => void) => void) {{ defineComponent((props: {{ id: number }}) => {{ console.log(props.id) }}) }}',
     'shadow-local': 'import {{ defineComponent }} from "vue"; function f() {{ const defineComponent = (x: any) => x; const C = defineComponent((props: {{ a: string }}) => null); return C }}',
     'other-module': 'import {{ defineComponent }} from "other"; const C = defineComponent((props: {{ a: string }}) => null);',
+    'dynamic-default': 'import {{ defineComponent }} from "vue"; const defs: any = {{}}; interface P {{ a?: string }} export const A = defineComponent((props: P = defs) => () => null);',
+    'props-given-dynamic-default': 'import {{ defineComponent }} from "vue"; const defs: any = {{}}; export const A = defineComponent((props: {{ a?: string }} = defs) => () => null, {{ props: {{ a: String }} }});',
+    'props-given-static-default': 'import {{ defineComponent, type SetupContext }} from "vue"; export const A = defineComponent((props: {{ a?: string }} = {{ a: "x" }}, ctx: SetupContext<(e: "x") => void>) => () => null, {{ props: {{ a: String }}, emits: ["x"] }});',
     'with-jsx': 'import {{ defineComponent }} from "vue"; const C = defineComponent((props: {{ a: string }}) => () => <div>{{props.a}}</div>); const tail = () => <C a="x"/>;',
 }
 
@@ -142,8 +147,20 @@ class Frame:
             bb = list(b)
             if len(bb) > len(a):
                 # generated items are inserted at the head of statement lists only
+                # - imports and the slot helper function: only at the head of the module itself;
+                # - let/const of temporaries: at the head of the module or of a function body / block;
+                # - nothing at all in the body of a namespace / `declare` block.
                 k = len(bb) - len(a)
-                if all(generated_item(ctx, x) for x in bb[:k]):
+                def allowed(x):
+                    x0 = deref(x)
+                    if not generated_item(ctx, x0):
+                        return False
+                    if path == '':
+                        return True
+                    if isinstance(x0, Adt) and x0.ty == 'Stmt' and x0.variant == 'Decl' and x0.fields[0].variant == 'Var':
+                        return True
+                    return False
+                if all(allowed(x) for x in bb[:k]):
                     bb = bb[k:]
             if len(a) != len(bb):
                 return self.fail(path, 'list of %d became %d' % (len(a), len(b)))
